@@ -189,7 +189,9 @@ def handleHIncrBy (_c : Ctx) (cmd : List Bytes) : Prog Res :=
           let h0 := if (h.get field).isNone then h.put field (.int 0) else h
           let newV : PRes Scalar := match cur, inc with
             | .str _, _ => .err (b "value at field " ++ field ++ b " is not a number")
-            | .int i, .inl d => .ok (.int (wrap64 (i + d)))
+            -- a sum outside the int64 range is refused, nothing is stored (repaired in /repo by a `fix:` commit;
+            -- before it the sum wrapped around)
+            | .int i, .inl d => if i + d < minInt64 || i + d > maxInt64 then .err overflowErr else .ok (.int (i + d))
             | .int i, .inr f => match (Flt.ofInt i).bind (·.add f) with
               | some r => .ok (.flt r)
               | none => .unmod "float arithmetic outside exact domain"
